@@ -492,3 +492,37 @@ def probe_schema_argument():
         return bool(bad), "; ".join(bad[:2]) or "probe: path-like schema arguments open nothing in the tree"
 
     return _with_tree(run)
+
+
+def replay_staleness_probe():
+    """check_staleness's per-snapshot containment: a SOURCE_URI that climbs out of the allowed root - into a SIBLING whose
+    name starts with the root's name, into a plain sibling, through a link - is refused before the file is opened"""
+    import pathlib
+
+    from octave_mcp.core import hydrator
+
+    d = tempfile.mkdtemp(prefix="vf-c19s-")
+    try:
+        base = pathlib.Path(d) / "proj"
+        (base / "docs").mkdir(parents=True)
+        (base / "specs").mkdir()
+        (base / "specs" / "v.oct.md").write_text("===V===\nA::1\n===END===\n", encoding="utf-8")
+        for sib in ("proj-private", "projX", "other"):
+            (pathlib.Path(d) / sib).mkdir()
+            (pathlib.Path(d) / sib / "secret.oct.md").write_text("===S===\nSECRET::1\n===END===\n", encoding="utf-8")
+        os.symlink(str(pathlib.Path(d) / "other"), str(base / "link"))
+        _install_hook()
+        bad = []
+        for uri in ("../proj-private/secret.oct.md", "../projX/secret.oct.md", "../other/secret.oct.md", "link/secret.oct.md", "docs/../../proj-private/secret.oct.md", "/etc/passwd"):
+            for root_kw in ({"allowed_root": base}, {}):
+                del _EVENTS[:]
+                r = hydrator._check_single_snapshot("ns", uri, "0" * 64, base_path=base, **root_kw)
+                outside = [p for p, _ in _EVENTS if "secret.oct.md" in str(p) or str(p) == "/etc/passwd"]
+                if r.status != "ERROR" or r.actual_hash is not None or outside:
+                    bad.append(f"SOURCE_URI {uri!r} (allowed_root {'given' if root_kw else 'default'}): status {r.status}, hash {str(r.actual_hash)[:12]}, opened {outside[:1]}")
+        r = hydrator._check_single_snapshot("ns", "docs/../specs/v.oct.md", "0" * 64, base_path=base, allowed_root=base)
+        if r.status not in ("STALE", "FRESH"):
+            bad.append(f"a source inside the root is refused: {r.status} {r.error}")
+        return bool(bad), "; ".join(bad[:2]) or "probe: staleness checks never open a source outside the allowed root (sibling-prefix directories included)"
+    finally:
+        shutil.rmtree(d, ignore_errors=True)
